@@ -10,7 +10,9 @@ import PoetryVerif.Proofs.MarkerPrintChars
 import PoetryVerif.Proofs.MarkerPrintDom
 import PoetryVerif.Proofs.MarkerEval
 import PoetryVerif.Proofs.MarkerPrintPy
+import PoetryVerif.Proofs.MarkerAlgSoundFullC
 import PoetryVerif.Proofs.PyConvPairFinal
+import PoetryVerif.Proofs.PyConvPairCompat
 
 set_option linter.unusedSimpArgs false
 set_option linter.unusedVariables false
@@ -274,5 +276,41 @@ example : M.Good (FullInvLeaf Ex.envAB) (.multi [.leaf (.single (pvLeafOf .ge ">
     refine ⟨⟨⟨by decide, ?_⟩, by decide⟩, ?_⟩
     · intro c hc; simp at hc; subst hc; unfold tokChar; decide
     · intro c hc; simp at hc; subst hc; decide
+
+/-- **Marker text with `~=` leaves, no hypothesis**: as `print_parse_full`, for markers that may also contain
+`python_version ~= "X.Y"` / `python_full_version ~= "X.Y.Z"` leaves. -/
+theorem print_parse_fullC {ex : List String} (hX : E.extras = some ex) {X Y Z : Nat} (hE : EnvPy E X Y Z)
+    {m : M} {t : Syn} (hg : M.Good (FullInvLeafC E) m) (h : M.toSyn m = some t) :
+    ∃ s, M.toStr m = .ok s ∧ parseText s = .ok t ∧
+      ∃ m', compactRaw t = .ok m' ∧ M.Good (FullInvLeafC E) m' ∧
+        M.validate E m' = .ok (M.sem (leafEval E) m) := by
+  obtain ⟨s, h1, h2, m', h3, h4, h5⟩ :=
+    M.parseText_toStr (leafSpec_fullInvC hX hE (pairSound_pyC hE)) (printOK_fullInvC hX)
+      (fun l hl => lexable_fullInvC l hl) hg h
+  refine ⟨s, h1, h2, m', h3, h4, ?_⟩
+  rw [M.validate_eq_sem E m' (M.good_mono (fun l hl => fullInvLeafC_evaluable hX hE hl) m' h4)]
+  exact congrArg _ h5
+
+/-- **Results of `intersect` / `union` with `~=` leaves print and parse back with their meaning** -/
+theorem algebra_print_parse_fullC {ex : List String} (hX : E.extras = some ex) {X Y Z : Nat} (hE : EnvPy E X Y Z)
+    {a b r : M} {isUnion : Bool} (ha : M.Good (FullInvLeafC E) a) (hb : M.Good (FullInvLeafC E) b)
+    (hr : (if isUnion then mUnion fuel stk a b else mIntersect fuel stk a b) = .ok r)
+    {t : Syn} (h : M.toSyn r = some t) :
+    ∃ s, M.toStr r = .ok s ∧ parseText s = .ok t ∧
+      ∃ m', compactRaw t = .ok m' ∧ M.Good (FullInvLeafC E) m' ∧
+        M.validate E m' = .ok (if isUnion then (M.sem (leafEval E) a || M.sem (leafEval E) b)
+          else (M.sem (leafEval E) a && M.sem (leafEval E) b)) := by
+  have S := leafSpec_fullInvC hX hE (pairSound_pyC hE)
+  cases isUnion
+  · simp only [Bool.false_eq_true, if_false] at hr ⊢
+    obtain ⟨g, e⟩ := mIntersect_sound S ha hb hr
+    rw [← e]; exact print_parse_fullC hX hE g h
+  · simp only [if_true] at hr ⊢
+    obtain ⟨g, e⟩ := mUnion_sound S ha hb hr
+    rw [← e]; exact print_parse_fullC hX hE g h
+
+/-- `python_version ~= "3.8"` prints as itself -/
+example : (M.toStr (.leaf (.single (pvCompatOf 3 8)))).toOption = some "python_version ~= \"3.8\"" := by
+  decide +kernel
 
 end Poetry.C13
